@@ -988,6 +988,20 @@ impl DdlExecutor {
         let index_root = index_relation.root();
         let index_schema = index_relation.schema().clone();
 
+        // Build the index before anything refers to it: a rejected build (duplicate keys) used to leave the
+        // catalog entry and the constraint in the table's schema behind, and every later INSERT failed with
+        // "Table not found <index id>".
+        if let Err(e) = self.populate_index(
+            table_root,
+            table_relation.schema(),
+            index_root,
+            &index_schema,
+            indexed_column_ids,
+        ) {
+            let _ = self.ctx.build_tree_mut(index_root).dealloc();
+            return Err(e);
+        }
+
         let snapshot = self.ctx.snapshot();
         let tree_builder = self.ctx.tree_builder();
 
@@ -1019,14 +1033,6 @@ impl DdlExecutor {
             None,
             &tree_builder,
             &snapshot,
-        )?;
-
-        self.populate_index(
-            table_root,
-            table_relation.schema(),
-            index_root,
-            &index_schema,
-            indexed_column_ids,
         )?;
 
         Ok(object_id)
